@@ -259,6 +259,7 @@ def run_check(pid, tier, seed, jobs=None, verbose=True):
     budget = check.budget[tier]
     tmp = tempfile.mkdtemp(prefix=f'verif-{pid}-')
     env = _worker_env()
+    env['TMPDIR'] = tmp          # lock files, marker dirs etc. of the workers die with this directory
     deadline = t0 + budget
     records = []
     try:
